@@ -69,8 +69,8 @@ def stream(sim):
     return s
 
 
-def smap(sim):
-    return sa_format.stream_map(stream(sim))
+def smap(sim, keep_funcptr=False):
+    return sa_format.stream_map(stream(sim), drop_funcptr=not keep_funcptr)
 
 
 _names = None
